@@ -186,6 +186,7 @@ fn main() {
           let mut fl = adapt::P2P.to_vec();
           fl.push(adapt::Flavour::Broadcast);
           check_e2(&mut check, fl);
+          check_topic(&mut check, 2);
           ("E2 generated poll/wake/cancel histories; non-trivial = two tasks pending on one side and one of them cancelled, or a waker replaced, or a sync operation completed an async waiter; distinct = hash of the scenario".into(), vec!["single-threaded executor owned by the harness; wakes are counted per task".into()])
         }
         _ => {
